@@ -98,6 +98,12 @@ def run(ctx: core.Ctx):
                           {kk: expected[k][kk] for kk in ("out", "fuzzy", "deg", "trig")}, d, note=f"{case['engine']['name']} row {k}: {d}", step=k)
         if ci in (0, 13):
             ctx.sample({"engine": case["engine"]["name"], "row": case["rows"][5], "expected": expected.get(6)})
+    # the pipeline on engines that were used before and edited since (spec/MC_Lifecycle in edit mode): set, process, edit, process
+    from . import c13
+
+    ebehs, ecases = c13.edit_behaviours(ctx, 4 if ctx.quick else 5)
+    c13.replay_behaviours(ctx, fl, ebehs, ecases, prefix="Engine.process/edited-after-use/")
+    ctx.extra["edit_behaviours"] = len(ebehs)
     # code -> spec: recorded process() calls validated by spec/Trace_Engine.tla
     from . import trace_engine
 
@@ -126,6 +132,11 @@ def run(ctx: core.Ctx):
 
 def replay(v) -> int:
     fl = core.import_fuzzylite()
+    if "steps" in v["case"] or "trace" in v["case"]:     # a behaviour on an edited engine / a recorded process() trace
+        print(json.dumps(v["case"])[:3000])
+        print("observed:", v.get("observed"), "| note:", v.get("note"))
+        print("re-run ./check C01 for the verdict on the current tree")
+        return 1
     ctx = core.Ctx("C01", "quick", v.get("seed", 0))
     case = {"engine": v["case"]["engine"], "rows": v["case"]["rows"]}
     exp = engine_run.evaluate(ctx, [case], "replay", shards=1)
